@@ -263,8 +263,13 @@ struct Worker {
     next_acct: u64,
     cur_policy: (u32, u32),
     shrinks_left: u32,
+    /// one reusable account per kind: a case starts ~12 days after the previous one of this
+    /// worker, so every older session of the account has expired (and is pruned by the server at
+    /// the next write); session ids are fresh, nothing of an older case can be named by a newer one
+    pool: Vec<Acct>,
 }
 
+#[derive(Clone)]
 struct Acct {
     name: String,
     uuid: Uuid,
@@ -287,6 +292,7 @@ impl Worker {
             next_acct: 1,
             cur_policy: (0, 0),
             shrinks_left: 3,
+            pool: vec![],
         }
     }
 
@@ -330,7 +336,23 @@ impl Worker {
         self.cur_policy = (sess, priv_);
     }
 
+    /// An account of the kind: the pooled one, unless it is running out of backup codes.
     async fn account(&mut self, kind: Kind, ct: Duration) -> Acct {
+        if let Some(k) = self.pool.iter().position(|a| a.kind == kind) {
+            if self.pool[k].bc_next + 3 <= BC_CODES.len() {
+                return self.pool.remove(k);
+            }
+            self.pool.remove(k);
+        }
+        self.new_account(kind, ct).await
+    }
+
+    fn release(&mut self, acct: Acct) {
+        self.pool.retain(|a| a.kind != acct.kind);
+        self.pool.push(acct);
+    }
+
+    async fn new_account(&mut self, kind: Kind, ct: Duration) -> Acct {
         if kind == Kind::Anon {
             return Acct { name: "anonymous".into(), uuid: UUID_ANONYMOUS, kind, bc_next: 0 };
         }
@@ -704,6 +726,7 @@ impl Worker {
                 }
             }
         }
+        self.release(acct);
         let model = self.drv.ask_batch(&lines);
         // ---- verdict ----
         let key = format!(
@@ -1086,7 +1109,7 @@ struct GenTok {
     marks: Vec<u128>,
 }
 
-fn gen_case(seed: u64, i: u64, slot: u64) -> Case {
+fn gen_case(seed: u64, i: u64, slot: u64, slot_s: u128) -> Case {
     let mut rng = Rng::for_case(seed, i);
     let kind = *rng.pick(&[Kind::Anon, Kind::Pw, Kind::Pw, Kind::Pw, Kind::Gpw, Kind::Totp, Kind::Totp, Kind::Bc]);
     let privileged = rng.chance(1, 3);
@@ -1098,7 +1121,7 @@ fn gen_case(seed: u64, i: u64, slot: u64) -> Case {
     let priv_ = *prng.pick(&PRIV_VALUES);
     // every case gets its own 12-day slot of the clock, so nothing of an earlier case (TOTP
     // window reuse, soft locks, auth session ids) is live
-    let start = (T0 as u128 + slot as u128 * SLOT_S) * NS + *rng.pick(&SUBSEC);
+    let start = (T0 as u128 + 100 * SLOT_S + (slot as u128 - 100) * slot_s) * NS + *rng.pick(&SUBSEC);
     let mut now = start;
     let floor = |t: u128| t / NS * NS;
     let res_priv = (priv_ as u128).min(3600);
@@ -1107,7 +1130,7 @@ fn gen_case(seed: u64, i: u64, slot: u64) -> Case {
     toks.push(GenTok { marks: first_marks(now) });
     let mut ops = vec![];
     let nops = 3 + rng.below(9);
-    let mut bc_left = 5;
+    let mut bc_left = 2;
     for _ in 0..nops {
         let r = rng.below(100);
         if r < 8 && (kind != Kind::Bc || bc_left > 0) {
@@ -1232,6 +1255,9 @@ fn merge(into: &mut Report, from: Report) {
 }
 
 fn worker_thread(driver: String, seed: u64, shard: u64, nshards: u64, total: u64, forge_n: u64, replay: Option<Json>) -> Report {
+    // `OffsetDateTime` ends at year 9999 (~2.5e11 s): with a raised budget the per-case slice of
+    // the clock shrinks (never below ~2 days; consecutive cases of one worker are `nshards` slots apart)
+    let slot_s: u128 = (200_000_000_000u128 / (total as u128 + 200)).min(SLOT_S);
     let rt = tokio::runtime::Builder::new_current_thread().enable_all().build().unwrap();
     rt.block_on(async move {
         let mut w = Worker::new(&driver).await;
@@ -1265,7 +1291,7 @@ fn worker_thread(driver: String, seed: u64, shard: u64, nshards: u64, total: u64
             let t2 = t0.elapsed();
             let mut i = shard;
             while i < total {
-                let c = gen_case(seed, i, i + 100);
+                let c = gen_case(seed, i, i + 100, slot_s);
                 w.check_case(&c, true).await;
                 i += nshards;
             }
@@ -1297,8 +1323,9 @@ fn main() {
         let v: Json = serde_json::from_str(&std::fs::read_to_string(p).unwrap()).unwrap();
         v["input"].clone()
     });
-    let total = args.cases(2000, 60_000);
-    let forge_n = args.cases(4000, 100_000);
+    // capped: every case adds an account to the worker's server (dynamic-group upkeep grows with it)
+    let total = args.cases(2000, 60_000).min(if args.thorough() { 120_000 } else { 20_000 });
+    let forge_n = args.cases(4000, 100_000).min(150_000);
     let nshards: u64 = if replay.is_some() { 1 } else if args.thorough() { 12 } else { 6 };
     let mut handles = vec![];
     for shard in 0..nshards {
